@@ -313,9 +313,89 @@ func c15Programs(t *testing.T, rec *ev.Recorder, ks []int, seed int) {
 	}
 }
 
+// ---------------------------------------------------------------------------
+// sessions with refused statements through the built binary (file mode)
+
+type refusalCase struct {
+	Stmts []string `json:"stmts"` // statements; an oversized one starts with oversizeMark
+}
+
+var c15Names = []string{"limit", "total", "spare", "ka", "kb", "kc", "kd"}
+
+func genRefusalCase(t *rapid.T) refusalCase {
+	var c refusalCase
+	name := func() string { return rapid.SampledFrom(c15Names).Draw(t, "name") }
+	n := rapid.IntRange(4, 14).Draw(t, "n")
+	for i := 0; i < n; i++ {
+		switch rapid.IntRange(0, 5).Draw(t, "kind") {
+		case 0, 1:
+			c.Stmts = append(c.Stmts, fmt.Sprintf("%s = %d", name(), rapid.IntRange(0, 99).Draw(t, "v")))
+		case 2:
+			c.Stmts = append(c.Stmts, fmt.Sprintf("%s = [%s, %d]", name(), name(), rapid.IntRange(0, 9).Draw(t, "v")))
+		case 3:
+			c.Stmts = append(c.Stmts, fmt.Sprintf("write(toa([%s, %s]) + \" \")", name(), name()))
+		default:
+			// refused: mentions (possibly new) global names before the point where it gets too large
+			a, b := name(), name()
+			// one physical line: the statement reader copies a many-line statement quadratically
+			c.Stmts = append(c.Stmts, oversizeMark+a+" = ["+b+strings.Repeat(", 1", 33000)+"]")
+		}
+	}
+	c.Stmts = append(c.Stmts, "write(toa(["+strings.Join(c15Names, ", ")+"]))")
+	return c
+}
+
+// refusalCheck runs the script in file mode; statements built to be refused must
+// print a compiler message and leave no trace, everything else behaves as in a
+// session that never contained them.
+func refusalCheck(tb testing.TB, c refusalCase) string {
+	rf := ref.New()
+	want := ""
+	refused := 0
+	var script strings.Builder
+	for _, s := range c.Stmts {
+		if strings.HasPrefix(s, oversizeMark) {
+			refused++
+			script.WriteString(strings.TrimPrefix(s, oversizeMark) + "\n")
+			continue
+		}
+		script.WriteString(s + "\n")
+		rr, perr := rf.RunStmt(s)
+		if perr != nil || rr.Skipped() || rr.Err != nil {
+			return "" // not in the domain of this check
+		}
+		want += rr.Out
+	}
+	r := runCalc(tb, "file", script.String(), "")
+	if crashed(r) {
+		return fmt.Sprintf("aborts:\n%s", clipS(lastLines(r.out, 8)))
+	}
+	got := ""
+	messages := 0
+	for _, line := range strings.SplitAfter(r.out, "\n") {
+		if i := strings.Index(line, "Compiler:"); i >= 0 {
+			messages++
+			got += line[:i]
+			continue
+		}
+		got += line
+	}
+	if messages != refused {
+		return fmt.Sprintf("%d statements exceed the limits, %d compiler messages were printed:\n%s", refused, messages, clipS(r.out))
+	}
+	if got != want {
+		return fmt.Sprintf("output %q, without the refused statements the session prints %q", clipS(got), clipS(want))
+	}
+	return ""
+}
+
 func init() {
 	replayers["C15"] = func(kind string, c json.RawMessage) string {
 		switch kind {
+		case "refusal":
+			var v refusalCase
+			mustJSON(c, &v)
+			return refusalCheck(replayT, v)
 		case "size":
 			var v sizeCase
 			mustJSON(c, &v)
@@ -349,6 +429,7 @@ func init() {
 }
 
 func TestC15(t *testing.T) {
+	replayT = t
 	if replayMode(t, "C15") {
 		return
 	}
@@ -368,5 +449,20 @@ func TestC15(t *testing.T) {
 		}
 		c15Programs(t, rec, ks, envInt("VERIF_SEED", 1))
 	}
-	rapid.Check(t, c15CodecProp(rec))
+	cp := c15CodecProp(rec)
+	// rapid's integer generators favour small values, so the rare binary-level
+	// case is scheduled by position: one in 40000 cases (8 per quick run)
+	nth := 0
+	rapid.Check(t, func(rt *rapid.T) {
+		nth++
+		if nth%40000 == 1 {
+			c := genRefusalCase(rt)
+			if why := refusalCheck(t, c); why != "" {
+				fail(rt, "C15", "refusal", c, "%s", why)
+			}
+			rec.Case("refusal session "+fmt.Sprint(len(c.Stmts)), true, "refusal-session-binary")
+			return
+		}
+		cp(rt)
+	})
 }
